@@ -25,8 +25,9 @@ ASSUME = ["the injected flag store is indistinguishable from Ctrl-C / an interru
           "baseline = the uninterrupted run of the same binary (a metamorphic oracle, not a reference semantics)"]
 BATCH = 1
 FLOOR = {"quick": 20, "thorough": 40}
-BUDGET = {"quick": 35, "thorough": 840}
+BUDGET = {"quick": 30, "thorough": 840}
 NCHUNK = 16
+KCHUNK = 8
 TECHNIQUE = "fault enumeration: deterministic interrupt injection at every interpreter step, resumed, compared with the uninterrupted run"
 
 
@@ -35,9 +36,11 @@ def corpus():
 
 
 def gen_cases(tier, seed):
+    # kernels first, in few large chunks, so that every kernel is covered at every tick even by a short budget
+    for c in range(KCHUNK):
+        for path in corpus():
+            yield {"corpus": os.path.basename(path), "chunk": c, "nchunk": KCHUNK}
     for path in corpus():
-        for c in range(NCHUNK):
-            yield {"corpus": os.path.basename(path), "chunk": c}
         yield {"corpus": os.path.basename(path), "multi": 0}
     yield {"_marker": "corpus-kernels-every-tick", "kernels": len(corpus())}
     i = 0
@@ -134,8 +137,12 @@ def run_case(case, sc):
     T = len(ticks)
     if T == 0 or fin0 is None:
         return {"status": "inconclusive", "key": None, "detail": {"no_ticks": True, "src": src[:300]}}
+    if "seed" in case and T > 700:
+        # a long program costs thousands of runs; the generator supplies plenty of shorter ones
+        return {"status": "held", "key": None}
     if "chunk" in case:
-        scheds = [[k] for k in range(1, T + 1) if k % NCHUNK == case["chunk"]]
+        n = case.get("nchunk", NCHUNK)
+        scheds = [[k] for k in range(1, T + 1) if k % n == case["chunk"]]
     else:
         rng = random.Random(hash((case.get("seed", 0), case.get("corpus", ""), case["multi"])) & 0xFFFFFFFF)
         scheds = []
